@@ -18,6 +18,7 @@ import Rs1090.Proofs.Snapshot
 import Rs1090.Proofs.SnapshotView
 import Rs1090.Proofs.Pipeline
 import Rs1090.Proofs.SnapshotWriters
+import Rs1090.Proofs.SnapshotKeyed
 import Rs1090.Props.C06
 namespace Rs1090.Props.C12
 open Rs1090.Model.Snapshot Rs1090.Spec.Snapshot Rs1090.Proofs.Snapshot
@@ -108,7 +109,12 @@ theorem provenance (k : Addr) (h : List Record) (e : Entry) (he : entryOf k (run
   have hr' : r ∈ own k h := by simpa using hr
   exact ⟨r, (mem_own.mp hr').1, (mem_own.mp hr').2, hc⟩
 
-/-- `typecode = "GRND"` only from one of `k`'s own DF18 records (instance of `provenance`). -/
+/-- `typecode = "GRND"` only from one of `k`'s own DF18 records (instance of `provenance`).
+    **Premise: empty aircraft database.**  The model's `Entry.new` starts with `typecode = none`, which is
+    `StateVectors::new` when `aircraftdb` has no row for the address (the verification driver runs with an
+    empty `BTreeMap`).  With a database the entry starts with the database's `typecode` (and `registration`),
+    a value carried by NO record: the statement is then false of the real entry, and type-code provenance is
+    "from the database row of `k`, or `GRND` from an own DF18 record". -/
 theorem grnd_only_from_own_df18 (k : Addr) (h : List Record) (e : Entry)
     (he : entryOf k (run h) = some e) (v : Val) (hv : e.typecode = some v) :
     v = "GRND" ∧ ∃ r me, r ∈ h ∧ r.addr = some k ∧ r.body = .tisb me := by
@@ -497,6 +503,92 @@ example : (entryOf "40058b" (runPipeline Gates.source dist0 none [⟨1, fEven⟩
   decide +kernel
 
 end Pipeline
+
+/-! ### Key-path provenance (audit B, finding 3)
+
+`frames_provenance` concludes `v ∈ carried x.record f`, where both the view (`viewOfJson`) and `carried` are
+written to mirror the arms.  The theorems below tie the KEY CHOICE of the view to the message's own JSON: the
+held value is the text of the member of the frame's decoded JSON at one of the key paths `shownAt f` — the
+member names under which `rs1090` serialises that quantity (top level for extended squitters, inside
+`bds20` / `bds40` / `bds50` / `bds60` for Comm-B), a list written from the serde names, not from the view.  A
+view reading another member would falsify them.  Position: see `pipeline_position_provenance` (the decoder's
+JSON has no `latitude` / `longitude`; they come from `decode_position`).  Type code: `frames_typecode_provenance`. -/
+
+section Keyed
+open Rs1090 Rs1090.Model Rs1090.Model.Message Rs1090.Model.SnapshotView Rs1090.Proofs.SnapshotView
+open Rs1090.Proofs.Filters Rs1090.Proofs.SnapshotKeyed Rs1090.Model.Pipeline Rs1090.Proofs.Pipeline
+open Rs1090.Model.Cpr Rs1090.Model.CprState
+
+/-- **Provenance by key path, from frames**: for every quantity `f` except latitude, longitude and the
+    type-code marker, a value `v` the entry of `k` holds for `f` is `valText` of the member at a path of
+    `shownAt f` of the JSON that one of the history's frames showing `k` decodes to. -/
+theorem frames_provenance_keyed (k : Addr) (h : List Rx) (e : Entry) (he : entryOf k (runFrames h) = some e)
+    (f : Field) (v : Val) (hv : entryField e f = some v)
+    (h1 : f ≠ .latitude) (h2 : f ≠ .longitude) (h3 : f ≠ .typecode) :
+    ∃ x, x ∈ h ∧ ShowsIcao24 x.frame k ∧ ∃ kvs, tryFrom x.frame = .ok (.json (.obj kvs)) ∧
+      ∃ p, p ∈ shownAt f ∧ (memberAt kvs p).bind valText = some v := by
+  obtain ⟨x, hx, hs, hc⟩ := frames_provenance k h e he f v hv
+  obtain ⟨kvs, hok, hk⟩ := record_keyed x f v hc h1 h2 h3
+  exact ⟨x, hx, hs, kvs, hok, hk⟩
+
+/-- the 13 instances, spelled out per field: which member(s) of an own frame's JSON the held value is -/
+theorem frames_provenance_paths (k : Addr) (h : List Rx) (e : Entry) (he : entryOf k (runFrames h) = some e) :
+    let At (f : Field) (ps : List Path) := ∀ v, entryField e f = some v →
+      ∃ x, x ∈ h ∧ ShowsIcao24 x.frame k ∧ ∃ kvs, tryFrom x.frame = .ok (.json (.obj kvs)) ∧
+        ∃ p, p ∈ ps ∧ (memberAt kvs p).bind valText = some v
+    At .callsign [.top (key! "callsign"), .nested (key! "bds20") (key! "callsign")] ∧
+    At .squawk [.top (key! "squawk")] ∧
+    At .altitude [.top (key! "altitude")] ∧
+    At .selectedAltitude [.top (key! "selected_altitude"), .nested (key! "bds40") (key! "selected_mcp")] ∧
+    At .groundspeed [.top (key! "groundspeed"), .nested (key! "bds50") (key! "groundspeed")] ∧
+    At .verticalRate [.top (key! "vertical_rate"), .nested (key! "bds60") (key! "vrate_inertial")] ∧
+    At .track [.top (key! "track"), .nested (key! "bds50") (key! "track")] ∧
+    At .ias [.top (key! "IAS"), .nested (key! "bds60") (key! "IAS")] ∧
+    At .tas [.top (key! "TAS"), .nested (key! "bds50") (key! "TAS")] ∧
+    At .mach [.nested (key! "bds60") (key! "Mach")] ∧
+    At .roll [.nested (key! "bds50") (key! "roll")] ∧
+    At .heading [.top (key! "heading"), .nested (key! "bds60") (key! "heading")] ∧
+    At .nacp [.top (key! "NACp")] := by
+  intro At
+  refine ⟨?_, ?_, ?_, ?_, ?_, ?_, ?_, ?_, ?_, ?_, ?_, ?_, ?_⟩ <;> intro v hv <;>
+    exact frames_provenance_keyed k h e he _ v hv (by decide) (by decide) (by decide)
+
+/-- **Type-code provenance, from frames** (empty aircraft database, see `grnd_only_from_own_df18`): a held
+    type code is `GRND`, and one of the history's frames showing `k` decodes to JSON whose `df` member is `"18"`. -/
+theorem frames_typecode_provenance (k : Addr) (h : List Rx) (e : Entry) (he : entryOf k (runFrames h) = some e)
+    (v : Val) (hv : e.typecode = some v) :
+    v = "GRND" ∧ ∃ x, x ∈ h ∧ ShowsIcao24 x.frame k ∧ ∃ kvs, tryFrom x.frame = .ok (.json (.obj kvs)) ∧
+      (objGet kvs (key! "df")).bind strOf = some "18" := by
+  obtain ⟨x, hx, hs, hc⟩ := frames_provenance k h e he .typecode v hv
+  obtain ⟨h1, kvs, hok, hdf⟩ := record_typecode x v hc
+  exact ⟨h1, x, hx, hs, kvs, hok, hdf⟩
+
+/-- **Provenance by key path, whole stage**: the same for the table of `runPipeline` (frames and time stamps
+    alone), the frame being one of `k`'s own receptions. -/
+theorem pipeline_provenance_keyed (g : Gates) (dist : Pos → Pos → Rat) (reference : Option Pos)
+    (k : Addr) (h : List Rcv) (e : Entry) (he : entryOf k (runPipeline g dist reference h) = some e)
+    (f : Field) (v : Val) (hv : entryField e f = some v)
+    (h1 : f ≠ .latitude) (h2 : f ≠ .longitude) (h3 : f ≠ .typecode) :
+    ∃ x, x ∈ h ∧ ShowsIcao24 x.frame k ∧ ∃ kvs, tryFrom x.frame = .ok (.json (.obj kvs)) ∧
+      ∃ p, p ∈ shownAt f ∧ (memberAt kvs p).bind valText = some v := by
+  obtain ⟨y, hy, hs, hc⟩ := pipeline_provenance g dist reference k h e he f v hv
+  obtain ⟨kvs, hok, hk⟩ := record_keyed y f v hc h1 h2 h3
+  obtain ⟨x, hx, hp⟩ := (exists_frame_iff
+    (fun fr => ShowsIcao24 fr k ∧ ∃ kvs, tryFrom fr = .ok (.json (.obj kvs)) ∧
+      ∃ p, p ∈ shownAt f ∧ (memberAt kvs p).bind valText = some v) (ownRcv k h) _).mp
+    ⟨y, hy, hs, kvs, hok, hk⟩
+  exact ⟨x, (mem_ownRcv.mp hx).1, hp⟩
+
+/-- non-vacuity on a real frame (`8d406b902015a678d4d220aa4bda`): the call sign the entry holds is the
+    text of the top-level `callsign` member of that frame's JSON -/
+example : (entryOf "406b90" (runFrames [⟨10, [0x8d,0x40,0x6b,0x90,0x20,0x15,0xa6,0x78,0xd4,0xd2,0x20,0xaa,0x4b,0xda], none⟩])).bind
+      (·.callsign) = some "EZY85MH" ∧
+    (match tryFrom [0x8d,0x40,0x6b,0x90,0x20,0x15,0xa6,0x78,0xd4,0xd2,0x20,0xaa,0x4b,0xda] with
+      | .ok (.json (.obj kvs)) => (memberAt kvs (.top (key! "callsign"))).bind valText
+      | _ => none) = some "EZY85MH" := by
+  decide +kernel
+
+end Keyed
 
 /-! ## All writers of the table: `update_snapshot`, `store_history` and the expiry task
 
